@@ -579,6 +579,11 @@ def rule_formatters(run, prog):
             for i, (lv, pos) in enumerate(diags):
                 if i == 1:
                     ds.append(b.error("CUSTOM_CODE", weird, level=lv, positions=(pos, (pos[0], pos[1] + 3))))
+                elif i in (0, 2) and diags is not plan[0][1] or i == 2:
+                    # the same code with a text of its own at every occurrence (the lexer's BAD_LEXEME names the character):
+                    # what is shown for a diagnostic is a function of that diagnostic, not of the code's first occurrence
+                    ch = "$@`#"[(len(files) + i) % 4]
+                    ds.append(b.error("BAD_LEXEME", f"No matchable token for '{ch}' lexeme", level=lv, positions=(pos,)))
                 else:
                     ds.append(b.error(("TOO_MANY_LINES", "SPC_INSTEAD_TAB", "INVALID_HEADER", "TOO_MANY_ARGS")[i % 4], level=lv, positions=(pos,)))
             files.append(b.real_file(path, ds))
